@@ -332,7 +332,7 @@ void c20_case(Ctx& c, Rng& r) {
         auto& p = peers[r.below(peers.size())];
         protocol::TransportHandshakePayload hp{};
         hp.requested_version = static_cast<std::uint8_t>(r.below(6));
-        const auto kind = r.below(6);
+        const auto kind = r.below(7);
         const char* kname = "valid";
         hp.public_identity = p.pub;
         hp.work_nonce = p.good_nonce;
@@ -340,6 +340,21 @@ void c20_case(Ctx& c, Rng& r) {
         else if (kind == 2) { hp.work_nonce = p.good_nonce + 1 + r.below(1000); kname = "other-nonce"; }
         else if (kind == 3) { hp.public_identity = network::KeyExchange::compute_public(p.scalar + 1 + static_cast<std::uint32_t>(r.below(1000))); kname = "different-key-same-peer"; }
         else if (kind == 4) { hp.public_identity = network::KeyExchange::compute_public(static_cast<std::uint32_t>(r.range(2, 1000000))); const auto w = tu_cli::compute_transport_pow(p.id, self, hp.public_identity, d); if (w) hp.work_nonce = *w; kname = "different-key-with-its-own-valid-pow"; }
+        else if (kind == 6) {
+            // a key outside (1, p) whose proof of work is genuinely solved for that key: the key range is the only thing wrong.
+            // Values congruent to a valid key modulo p (key + p) are the interesting ones: they would even derive the same secret.
+            constexpr std::uint32_t P = network::KeyExchange::kPrime;
+            const auto which = r.below(5);
+            std::uint32_t bad;
+            if (which == 0) bad = p.pub + P;                                                   // alias of the peer's real key
+            else if (which == 1) bad = static_cast<std::uint32_t>(r.range(2, P - 1)) + P;      // alias of some valid key
+            else if (which == 2) bad = static_cast<std::uint32_t>(r.range(P, 0xffffffffll));   // anything at or above p
+            else { static const std::uint32_t edge[] = {0u, 1u, P, P + 1u, P + 2u, 0x80000001u, 0xfffffffdu, 0xfffffffeu, 0xffffffffu}; bad = edge[r.below(9)]; }
+            hp.public_identity = bad;
+            const auto w = tu_cli::compute_transport_pow(p.id, self, hp.public_identity, d);
+            if (w) hp.work_nonce = *w;
+            kname = "invalid-key-with-its-own-valid-pow";
+        }
         const bool key_ok = hp.public_identity > 1 && hp.public_identity < network::KeyExchange::kPrime;
         const bool pow_ok = d == 0 || lz_ref(tu_node::handshake_digest(p.id, self, hp.public_identity, hp.work_nonce)) >= d;
         const bool want = key_ok && pow_ok;
@@ -822,6 +837,19 @@ void c24_case(Ctx& c, Rng& r) {
             scheduling_pass = true;
             what = "tick";
             c.note("fetch.ticks");
+        } else if (k == 8 && r.chance(1, 3)) {
+            // a provider that was reachable goes away: sends that succeeded so far start to fail
+            std::vector<unsigned> up;
+            for (unsigned q = 0; q < npeers; ++q) if (has_session[q] && f.peers[q]->fd >= 0) up.push_back(q);
+            what = "advance";
+            if (!up.empty()) {
+                const unsigned q = up[r.below(up.size())];
+                f.drain(*f.peers[q]);
+                ::close(f.peers[q]->fd);
+                f.peers[q]->fd = -1;
+                for (int w = 0; w < 4000 && f.node->sessions_.is_connected(f.peers[q]->id); ++w) ::usleep(500);
+                if (!f.node->sessions_.is_connected(f.peers[q]->id)) { has_session[q] = false; c.note("fetch.providers-gone-away"); }
+            }
         } else {
             std::vector<std::int64_t> ds;
             for (auto& [_, st] : f.node->pending_chunk_fetches_) if (st.next_attempt != std::chrono::steady_clock::time_point::max()) ds.push_back(st.next_attempt.time_since_epoch().count());
@@ -869,6 +897,13 @@ void c24_case(Ctx& c, Rng& r) {
                 const std::int64_t pass_time = what == "announce" ? now - NS - 1 : now;
                 const std::int64_t delay = st.next_attempt.time_since_epoch().count() - pass_time;
                 const std::size_t a = st.attempts;
+                // a send that failed with the attempt limit already used up must not be scheduled again (decided here from the
+                // observed history: attempts grew, nothing is in flight; not from the node's own "never again" marker)
+                if (alimit > 0 && a >= alimit) {
+                    c.note("fetch.failed-dispatches-at-or-past-the-attempt-limit");
+                    c.violation("C24:termination:fetch-rescheduled-after-attempt-limit", desc().kv("attempts", a).kv("retry_in_ns", delay).str());
+                    continue;
+                }
                 auto expect_for = [&](std::size_t exponent) { const long double v = static_cast<long double>(b0) * std::pow(2.0L, static_cast<long double>(exponent)); return static_cast<std::int64_t>(std::min<long double>(v, static_cast<long double>(bmax))); };
                 const std::int64_t e1 = expect_for(a - 1), e2 = expect_for(std::min<std::size_t>(a - 1, 8));
                 c.note("fetch.backoff-delays-checked");
